@@ -55,6 +55,12 @@ def _modbus_checksum(data: Union[bytearray, bytes]) -> int:
     return crc
 
 
+def _check_range(what: str, value: int, low: int, high: int) -> None:
+    """Refuse a request parameter that does not fit its field (it would be sent truncated)"""
+    if not low <= value <= high:
+        raise ValueError(f"Modbus {what} {value} out of range.")
+
+
 def create_modbus_rtu_request(comm_addr: int, cmd: int, offset: int, value: int) -> bytes:
     """
     Create modbus RTU request.
@@ -64,6 +70,8 @@ def create_modbus_rtu_request(comm_addr: int, cmd: int, offset: int, value: int)
     data[4:5] is command value parameter
     data[6:7] is crc-16 checksum
     """
+    _check_range("register address", offset, 0, 0xFFFF)
+    _check_range("value", value, -0x8000, 0xFFFF)
     data: bytearray = bytearray(6)
     data[0] = comm_addr
     data[1] = cmd
@@ -88,6 +96,8 @@ def create_modbus_tcp_request(comm_addr: int, cmd: int, offset: int, value: int)
     data[8:9] is command offset parameter
     data[10:11] is command value parameter
     """
+    _check_range("register address", offset, 0, 0xFFFF)
+    _check_range("value", value, -0x8000, 0xFFFF)
     data: bytearray = bytearray(12)
     data[0] = 0
     data[1] = 1  # Not transaction ID support yet
@@ -115,6 +125,7 @@ def create_modbus_rtu_multi_request(comm_addr: int, cmd: int, offset: int, value
     data[7-n] is data payload
     data[n+1:n+2] is crc-16 checksum
     """
+    _check_range("register address", offset, 0, 0xFFFF)
     data: bytearray = bytearray(7)
     data[0] = comm_addr
     data[1] = cmd
@@ -143,6 +154,7 @@ def create_modbus_tcp_multi_request(comm_addr: int, cmd: int, offset: int, value
     data[12] is number of bytes
     data[13-n] is data payload
     """
+    _check_range("register address", offset, 0, 0xFFFF)
     data: bytearray = bytearray(13)
     data[0] = 0
     data[1] = 1  # Not transaction ID support yet
